@@ -50,14 +50,14 @@ fn verif_grid() {
     let plain: Vec<&str> = PLAIN.iter().chain(PLAIN_DISTINCT.iter()).cloned().filter(|s| *s != "SELECT input FROM t").collect();
     for (bi, base) in sequences(&pool, 4).into_iter().enumerate() {
         if base.is_empty() { continue; }
-        if base.len() == 4 && bi % 7 != 0 { continue; }
+        if base.len() == 4 && left_out(bi, 7) { continue; }
         for (si, st) in aggregate.iter().enumerate() {
-            if base.len() >= 3 && (bi + si) % 2 != 0 { continue; }
+            if base.len() >= 3 && left_out(bi + si, 2) { continue; }
             let b1 = base.clone();
             g.case(&format!("aggregate-b{}-s{}", bi, si), move || check(st, true, &b1));
         }
         for (si, st) in plain.iter().enumerate() {
-            if base.len() >= 3 && (bi + si) % 3 != 0 { continue; }
+            if base.len() >= 3 && left_out(bi + si, 3) { continue; }
             let (b1, st1) = (base.clone(), st.to_string());
             g.case(&format!("plain-b{}-s{}", bi, si), move || check(&st1, false, &b1));
         }
@@ -68,7 +68,7 @@ fn verif_grid() {
     let agg2 = ["SELECT k, COUNT(*) AS n, STRING_AGG(s, '+') AS joined FROM t GROUP BY k", "SELECT k, COUNT(*) AS n, MIN(s) AS lo, MAX(s) AS hi, COUNT(s) AS c FROM t GROUP BY k",
                 "SELECT COUNT(*) AS n, STRING_AGG(s, ',') AS all FROM t", "SELECT k, COUNT(*) AS n, ARRAY_AGG(k) AS ks, COUNT(DISTINCT s) AS d FROM t GROUP BY k"];
     for (bi, base) in sequences(&pool2, 4).into_iter().enumerate() {
-        if base.is_empty() || (base.len() == 4 && bi % 3 != 0) { continue; }
+        if base.is_empty() || (base.len() == 4 && left_out(bi, 3)) { continue; }
         for (si, st) in agg2.iter().enumerate() {
             let b1 = base.clone();
             g.case(&format!("text-aggregate-b{}-s{}", bi, si), move || check_in(def2, st, true, &b1));
